@@ -23,7 +23,11 @@ pub fn serve() {
                 continue;
             }
         };
-        let answer = match guard(|| gather_fibex_data(FibexConfig { fibex_file_paths: paths })) {
+        let answer = match guard(|| {
+            gather_fibex_data(FibexConfig {
+                fibex_file_paths: paths,
+            })
+        }) {
             Ok(Some(m)) => format!("S {} {}", m.frame_map.len(), m.frame_map_with_key.len()),
             Ok(None) => "N".to_string(),
             Err(p) => format!("P {}\t{}", p.signature(), p.describe().replace('\n', " ")),
@@ -37,11 +41,16 @@ pub fn serve() {
 pub enum Loaded {
     Some,
     None,
-    Panic { sig: String, text: String },
+    Panic {
+        sig: String,
+        text: String,
+    },
     /// the child died (abort, stack overflow, signal)
     Crash(String),
     /// the load consumed more than the CPU budget without answering
-    Hang { cpu_s: f64 },
+    Hang {
+        cpu_s: f64,
+    },
     /// no answer and no CPU consumption: the machinery is stuck, not the code under test
     Stalled,
 }
@@ -67,7 +76,12 @@ fn cpu_seconds(pid: u32) -> Option<f64> {
 impl Evaluator {
     pub fn spawn() -> std::io::Result<Self> {
         let exe = std::env::current_exe()?;
-        let mut child = Command::new(exe).arg("eval-server").stdin(Stdio::piped()).stdout(Stdio::piped()).stderr(Stdio::null()).spawn()?;
+        let mut child = Command::new(exe)
+            .arg("eval-server")
+            .stdin(Stdio::piped())
+            .stdout(Stdio::piped())
+            .stderr(Stdio::null())
+            .spawn()?;
         let stdin = child.stdin.take().unwrap();
         let stdout = child.stdout.take().unwrap();
         let (tx, rx) = channel();
@@ -88,7 +102,12 @@ impl Evaluator {
                 }
             }
         });
-        Ok(Evaluator { child, stdin, rx, loads: 0 })
+        Ok(Evaluator {
+            child,
+            stdin,
+            rx,
+            loads: 0,
+        })
     }
 
     /// load the given paths in the child; `budget` = CPU seconds after which the load counts as non-terminating
@@ -97,14 +116,23 @@ impl Evaluator {
         let pid = self.child.id();
         let before = cpu_seconds(pid).unwrap_or(0.0);
         let req = serde_json::to_string(paths).unwrap();
-        if writeln!(self.stdin, "{}", req).and_then(|_| self.stdin.flush()).is_err() {
+        if writeln!(self.stdin, "{}", req)
+            .and_then(|_| self.stdin.flush())
+            .is_err()
+        {
             return Loaded::Crash("cannot write to the evaluator (child gone)".into());
         }
         let start = Instant::now();
         let mut last_progress = Instant::now();
         let mut last_cpu = before;
         loop {
-            match self.rx.recv_timeout(Duration::from_millis(if start.elapsed().as_millis() < 200 { 5 } else { 100 })) {
+            match self.rx.recv_timeout(Duration::from_millis(
+                if start.elapsed().as_millis() < 200 {
+                    5
+                } else {
+                    100
+                },
+            )) {
                 Ok(Some(line)) => {
                     return match line.as_bytes().first() {
                         Some(b'S') => Loaded::Some,
@@ -112,19 +140,28 @@ impl Evaluator {
                         Some(b'P') => {
                             let rest = line[1..].trim();
                             let (sig, text) = rest.split_once('\t').unwrap_or((rest, rest));
-                            Loaded::Panic { sig: sig.to_string(), text: text.to_string() }
+                            Loaded::Panic {
+                                sig: sig.to_string(),
+                                text: text.to_string(),
+                            }
                         }
                         _ => Loaded::Crash(format!("unexpected answer {:?}", line)),
                     }
                 }
                 Ok(None) | Err(RecvTimeoutError::Disconnected) => {
-                    let status = self.child.wait().map(|s| s.to_string()).unwrap_or_else(|e| e.to_string());
+                    let status = self
+                        .child
+                        .wait()
+                        .map(|s| s.to_string())
+                        .unwrap_or_else(|e| e.to_string());
                     return Loaded::Crash(format!("evaluator child died: {}", status));
                 }
                 Err(RecvTimeoutError::Timeout) => {
                     let now = cpu_seconds(pid).unwrap_or(last_cpu);
                     if now - before > budget {
-                        return Loaded::Hang { cpu_s: now - before };
+                        return Loaded::Hang {
+                            cpu_s: now - before,
+                        };
                     }
                     if now > last_cpu + 0.005 {
                         last_cpu = now;
